@@ -149,6 +149,14 @@ class SymInt:
     def __index__(self):
         raise Unsupported("symbolic integer used where CPython needs a machine int (index/range/len)")
 
+    # decimal rendering: a marker string standing for  str.from_int(term)  (str()/format() of an int are external:
+    # assumed to give the decimal numeral).  A non-empty format spec is part of the marker.
+    def __str__(self):
+        return sym_str_marker(self.t, "")
+
+    def __format__(self, spec):
+        return sym_str_marker(self.t, spec)
+
     def __int__(self):
         raise Unsupported("int() of a symbolic integer must go through the shadowed int")
 
@@ -319,6 +327,15 @@ class SymInt:
         return wrap(r)
 
 
+SYM_STR = {}
+
+
+def sym_str_marker(t, spec=""):
+    key = "\u27e8int#%d%s\u27e9" % (t.get_id(), (":" + spec) if spec else "")
+    SYM_STR[key] = (t, spec)
+    return key
+
+
 def _floor_q(a, b):
     # floor(a/b) from z3's Euclidean div:  a = b*q + r, 0 <= r < |b|
     q, r = a / b, a % b
@@ -438,6 +455,13 @@ def sym_len(x):
 
 
 def sym_isinstance(x, cls):
+    # the shadowed names `int` / `bool` are functions: map them back to the types they stand for
+    if isinstance(cls, tuple):
+        cls = tuple({sym_int: int, sym_bool: bool}.get(c, c) if callable(c) and not isinstance(c, type) else c for c in cls)
+    elif cls is sym_int:
+        cls = int
+    elif cls is sym_bool:
+        cls = bool
     if isinstance(x, SymInt):
         cl = cls if isinstance(cls, tuple) else (cls,)
         return any(c is int or c is object for c in cl)
